@@ -13,7 +13,8 @@ EXPLANATION = ("R07.1 per-element classification table of the cleanup loop: with
                "predicates equal the documented set of direct namings and agree under the Naming->NamingState mapping of initialisation; R07.5 the "
                "filter handed to cleanup is the naming state's own and can never match the rCURRENT infix; R07.6 shutdown sends Die then joins; on the decision rows of the cleanup thread every Act received is followed by a cleanup run "
                "before the next receive or the end of the thread (a queued request is never dropped), Die/disconnect leave the loop. R07.7 the listing cleanup counts over recognises exactly the family (shared with R14.2). R07.8 the writer is switched to the new file (the old one thereby flushed and closed) before cleanup runs (rotation table shared with R01.4). R07.9 names of rotated files sort in the order of rotation: collision table (shared with R06.4)."
-               " R07.2 also: the gz encoder writes into the File itself, or its buffering sink is flushed with the result guarding the removal of the original.")
+               " R07.2 also: the gz encoder writes into the File itself, or its buffering sink is flushed with the result guarding the removal of the original."
+               " R07.10 cleanup wiring: the Cleanup given to rotate()/o_rotate() and the background-thread flag reach State::new unchanged (shared configuration-wiring tables, rules/cfgwiring.py).")
 ASSUMPTIONS = ["lexicographic path order of the listing is age order for the configured naming (value-dependent, not decided)", "flate2 finish() completes the gz stream",
                "mpsc channels are FIFO"]
 NOT_DECIDED = ["that lexicographic order is age order (.restart-NNNN siblings, r99999->r100000)", "byte-exact gzip round trip", "interleavings of the cleanup thread with further rotations beyond lock/order facts"]
@@ -25,6 +26,9 @@ FSOPS = ['remove_file', 'create', 'open', 'copy', 'finish']
 
 
 def run(R, ctx):
+    R.rule('R07.10', 'cleanup wiring: the Cleanup given to rotate()/o_rotate() and the background-thread flag reach State::new unchanged')
+    import cfgwiring
+    cfgwiring.config_wiring(R, ctx, 'R07.10', 'C07')
     R.rule('R07.1', 'TABLE(cleanup classification per listed file)')
     R.rule('R07.2', 'GUARDED-EFFECT chain of the compression')
     R.rule('R07.3', 'PROVENANCE(list order: sort ascending, reverse, order-preserving filters)')
